@@ -98,31 +98,41 @@ def descendants(nodes, i):
 
 
 def build_tree(nodes, root):
-    """Real pytree for the spec tree; batched wrappers are constructed under eqx.filter_vmap."""
-    batched = [i for i in descendants(nodes, root) if nodes[i - 1]["b"] > 0]
-    vals = {}
-    under = {}
-    for b in batched:
-        for d in descendants(nodes, b):
-            under[d] = nodes[b - 1]["b"]
-    for i in descendants(nodes, root):
-        k = nodes[i - 1]["k"]
-        if k == "arr":
-            vals[i] = jnp.asarray(leaf_value(i, under.get(i, 0)))
-        elif k == "int":
-            vals[i] = jnp.arange(3) + i
+    """Real pytree for the spec tree; batched wrappers are constructed under eqx.filter_vmap (nested for two levels)."""
+    from flowjax.wrappers import BijectionReparam, Lambda, NonTrainable, WeightNormalization, Where
+    levels = {}          # leaf id -> batch sizes of the batched wrappers above it, outermost first
 
-    def rec(i):
+    def walk(i, prefix):
         n = nodes[i - 1]
-        if n["b"] > 0:
-            ids = sorted(d for d in descendants(nodes, i) if nodes[d - 1]["k"] in ("arr", "int"))
-            stacked = {d: vals[d] for d in ids}
-            return eqx.filter_vmap(lambda sv: build(nodes, i, sv))(stacked)
+        pre = prefix + ([n["b"]] if n["b"] > 0 else [])
         if n["k"] in ("arr", "int"):
-            return vals[i]
-        from flowjax.wrappers import BijectionReparam, Lambda, NonTrainable, WeightNormalization, Where
-        ch = [rec(c) for c in n["ch"]]
+            levels[i] = pre
+        for c in n["ch"]:
+            walk(c, pre)
+
+    walk(root, [])
+    vals = {}
+    for i, pre in levels.items():
+        if nodes[i - 1]["k"] == "arr":
+            v = leaf_value(i, 0)
+            for depth, b in enumerate(reversed(pre)):
+                v = np.stack([v + 0.013 * (j + 1) * (i + 1) * (depth + 1) for j in range(b)])
+            vals[i] = jnp.asarray(v)
+        else:
+            v = np.arange(3) + i
+            for b in reversed(pre):
+                v = np.stack([v for _ in range(b)])
+            vals[i] = jnp.asarray(v)
+
+    def B(i, cur, ignore_b=False):
+        n = nodes[i - 1]
+        if n["b"] > 0 and not ignore_b:
+            ids = sorted(d for d in descendants(nodes, i) if nodes[d - 1]["k"] in ("arr", "int"))
+            return eqx.filter_vmap(lambda sv: B(i, {**cur, **sv}, True))({d: cur[d] for d in ids})
         k = n["k"]
+        if k in ("arr", "int"):
+            return cur[i]
+        ch = [B(c, cur) for c in n["ch"]]
         if k == "node":
             return tuple(ch)
         if k == "nt":
@@ -135,7 +145,7 @@ def build_tree(nodes, root):
             return WeightNormalization(ch[0])
         return Lambda(_neg, ch[0]) if n["f"] == "NEG" else Lambda(_pair, ch[0], ch[1])
 
-    return rec(root), vals
+    return B(root, vals), vals
 
 
 # ---------------------------------------------------------------------------------------------------------------
@@ -502,10 +512,10 @@ def frozen_real_flows(rep: Report, rng: random.Random, count: int, traces: list)
         try:
             if i % 2:
                 x = jr.normal(k2, (20, dim))
-                out, _ = fit_to_data(k3, flow, x, max_epochs=2, batch_size=5, optimizer=opt, show_progress=False)
+                out, _ = fit_to_data(k3, flow, x, max_epochs=2, batch_size=5, optimizer=opt, show_progress=False, return_best=False)
             else:
                 loss = ElboLoss(ds.Normal(jnp.zeros(dim)).log_prob, num_samples=8)
-                out, _ = fit_to_variational_target(k3, flow, loss, steps=3, optimizer=opt, show_progress=False)
+                out, _ = fit_to_variational_target(k3, flow, loss, steps=3, optimizer=opt, show_progress=False, return_best=False)
             params, static = eqx.partition(flow, eqx.is_inexact_array)
             g = eqx.filter_grad(lambda p: eqx.combine(p, static).log_prob(jnp.ones(dim) * 0.3))(params)
         except Exception as e:  # noqa: BLE001
